@@ -2,13 +2,18 @@
 C14 — Primary and unique keys are enforced exactly.
 
 Model: Gms/Model/MemTable.lean (`tableEditor.Insert/Update/Delete`, `pkTableEditAccumulator.Get /
-GetByCols`, `checkUniqueConstraints`, `columnsMatch`, `ApplyEdits`). Helper lemmas:
-Gms/Lemmas/MemTable.lean, Gms/Lemmas/MemTableEd.lean. Audited theorems: `namespace Gms.C14`.
+GetByCols`, `checkUniqueConstraints`, `columnsMatch`, `ApplyEdits`) and Gms/Model/MemTableDdl.lean
+(schema changes between statements; `indexColsForTableEditor` resolves index columns by name).
+Helper lemmas: Gms/Lemmas/MemTable.lean, Gms/Lemmas/MemTableEd.lean, Gms/Lemmas/MemTableDdl.lean,
+Gms/Lemmas/MemTableDdlWf.lean. Audited theorems: `namespace Gms.C14`.
 -/
 import Gms.Model.MemTable
 import Gms.Lemmas.MemTable
 import Gms.Lemmas.MemTableEd
 import Gms.Lemmas.MemTableStmt
+import Gms.Model.MemTableDdl
+import Gms.Lemmas.MemTableDdl
+import Gms.Lemmas.MemTableDdlWf
 import Gms.Generated.C14
 
 namespace Gms.MemTable
@@ -196,6 +201,64 @@ theorem uniqInv_specNoDup (sch : Schema) (hk : sch.keyless = false) (hci : NoCi 
     have := specConflict_false sch hk hci hnp (r :: rs) hok r x (by simp) (List.mem_cons_of_mem _ hx) hne
     simp [this]
 
+/-! ## histories that interleave statements with schema changes -/
+
+theorem proj_remap {sch sch' : Schema} {f : Nat → Nat} {g : Row → Row} {K : Nat → Prop} {R : Row → Prop}
+    (m : Remap sch sch' f g K R) (r : Row) (h : R r) : proj sch'.pk (g r) = proj sch.pk r := by
+  rw [m.pk]
+  simp only [proj, List.map_map]
+  apply List.map_congr_left
+  intro c hc
+  exact m.val r h c (m.kpk c hc)
+
+/-- the state invariant is carried through a re-numbering of the key ordinals. -/
+theorem uniqInv_remap {sch sch' : Schema} {f : Nat → Nat} {g : Row → Row} {K : Nat → Prop} {R : Row → Prop}
+    (m : Remap sch sch' f g K R) (t : List Row) (ht : ∀ r ∈ t, R r) (h : UniqInv sch t) :
+    UniqInv sch' (t.map g) := by
+  obtain ⟨hnd, hok⟩ := h
+  constructor
+  · unfold NoDupPk at hnd ⊢
+    have : (t.map g).map (proj sch'.pk) = t.map (proj sch.pk) := by
+      rw [List.map_map]
+      apply List.map_congr_left
+      intro r hr
+      exact proj_remap m r (ht r hr)
+    rw [this]; exact hnd
+  · intro r1' h1 r2' h2 hne u' hu' hnull
+    obtain ⟨r1, hr1, rfl⟩ := List.mem_map.mp h1
+    obtain ⟨r2, hr2, rfl⟩ := List.mem_map.mp h2
+    rw [m.uq] at hu'
+    obtain ⟨u, hu, rfl⟩ := List.mem_map.mp hu'
+    rw [proj_remap m r1 (ht r1 hr1), proj_remap m r2 (ht r2 hr2)] at hne
+    rw [hasNull_remap m u.1 (m.kuq u hu) r2 (ht r2 hr2)] at hnull
+    rw [columnsMatch_remap m u.1 u.2 (m.kuq u hu) r1 r2 (ht r1 hr1) (ht r2 hr2)]
+    exact hok r1 hr1 r2 hr2 hne u hu hnull
+
+/-- one item of a mixed history: the editor calls of a DML statement, or a schema change. -/
+inductive HItem where
+  | dml (cs : List EdCall)
+  | ddl (d : Ddl)
+
+/-- a mixed history on the named table definition: every statement runs in an editor created from
+the definition as it is then (`NSchema.resolve` = `indexColsForTableEditor`). -/
+def runMixed : NSchema → List Row → List HItem → NSchema × List Row
+  | ns, t, [] => (ns, t)
+  | ns, t, .dml cs :: rest => runMixed ns (runStmtCalls ns.resolve t cs) rest
+  | ns, t, .ddl d :: rest => runMixed (ddlSchema ns d) (t.map (ddlRow d)) rest
+
+/-- guards along a mixed history: for a statement those of `unique_invariant_partial` (keyed table,
+no case-insensitive column, typed rows, exact unique lookups); for a schema change: applicable, and
+the stored rows have the table's width. -/
+def MixedGuard : NSchema → List Row → List HItem → Prop
+  | _, _, [] => True
+  | ns, t, .dml cs :: rest =>
+    ns.resolve.keyless = false ∧ NoCi ns.resolve ∧ (∀ c ∈ cs, ∀ r ∈ c.rows, KeyTyped ns.resolve r)
+      ∧ exactRun ns.resolve (stmtBegin (mkEd t)) cs = true
+      ∧ MixedGuard ns (runStmtCalls ns.resolve t cs) rest
+  | ns, t, .ddl d :: rest =>
+    ddlOk ns d = true ∧ (∀ r ∈ t, r.length = ns.names.length)
+      ∧ MixedGuard (ddlSchema ns d) (t.map (ddlRow d)) rest
+
 end Gms.MemTable
 
 /-! ## Property theorems -/
@@ -207,6 +270,9 @@ truncates `string`/`[]byte` values to `v[:prefixLength]` (bytes), compares decim
 everything else with Go `!=`; `GetByCols` looks at pending deletes (bail), pending adds, stored
 rows, in this order; `Get` at adds, deletes, stored rows; `checkUniqueConstraints` skips an index
 in which the row has a NULL; `Insert`/`Update` call the checks in the modelled order; `getRowKey`
+finds the columns of a unique index by NAME (`indexColsForTableEditor`: `Name`, `columnIndexes` →
+`Schema.IndexOf`; the field ordinals stored in the index expressions, stale after ADD COLUMN … FIRST /
+AFTER and RENAME TABLE, are never read: `indexColsOrdinalReads = 0`); `getRowKey`
 prints every key value with `%v` and writes it length-prefixed (`"%d:%s,"` with `len(s), s`) — the
 repair of finding `pk_print_collision`: if the prefix disappears again this obligation breaks and
 `fixed_pk_print_collision` below is the replay. -/
@@ -228,7 +294,10 @@ theorem facts_match :
     ∧ Gms.Generated.C14.checkUniqueNullContinue = 1
     ∧ Gms.Generated.C14.insertDupIsPK = ["true"]
     ∧ Gms.Generated.C14.hasNullConds = ["row[idx] == nil"]
-    ∧ Gms.Generated.C14.hasNullReturns = ["true", "false"] := by
+    ∧ Gms.Generated.C14.hasNullReturns = ["true", "false"]
+    ∧ Gms.Generated.C14.indexColsForTableEditor = ["IsUnique", "Name", "columnIndexes", "PrefixLengths"]
+    ∧ Gms.Generated.C14.indexColsOrdinalReads = 0
+    ∧ Gms.Generated.C14.columnIndexes = ["schema.IndexOf", "errColumnNotFound.New"] := by
   decide
 
 /-- **The printed key is injective** (`key_injective`; FALSE before the repair of
@@ -354,6 +423,126 @@ theorem get_exact (sch : Schema) (S : List Row) (hty : ∀ r ∈ S, KeyTyped sch
         | _ => none :=
   pkGet_spec sch S (keyInjOn_typed sch S hty) e hwf row hr
 
+/-! ### schema changes between the statements (Gms/Model/MemTableDdl.lean)
+
+Every statement gets a new `tableEditor`; the positions of the unique-index columns it works with are
+recomputed from the table definition by `indexColsForTableEditor`, BY NAME. The theorems below say
+that this keeps the keys enforced across ADD COLUMN at any position, DROP COLUMN of a non-key
+column, RENAME COLUMN and RENAME TABLE — for every well-formed table definition, every applicable
+change and all rows of the table's width. (An editor that trusted ordinals recorded earlier loses
+`ddl_keeps_every_index` or `ddl_unique_check_same_values`; the correspondence runs histories that
+interleave these changes with duplicate-writing DML.) -/
+
+/-- **No unique index is lost by a schema change**: the editor created afterwards checks as many
+unique indexes as the table has. -/
+theorem ddl_keeps_every_index (ns : NSchema) (d : Ddl) (hwf : ns.wf = true) (hok : ddlOk ns d = true) :
+    (indexColsForTableEditor (ddlSchema ns d)).length = ns.idx.length
+      ∧ (ddlSchema ns d).idx.length = ns.idx.length := by
+  obtain ⟨f, K, m⟩ := ddl_remap ns d hwf hok
+  have h : indexColsForTableEditor (ddlSchema ns d)
+      = (indexColsForTableEditor ns).map (fun u => (u.1.map f, u.2)) := m.uq
+  refine ⟨?_, by cases d <;> simp [ddlSchema]⟩
+  rw [h, List.length_map]
+  exact indexCols_length ns.names ns.idx (wf_unpack ns hwf).2.2.1
+
+/-- **The editor created after a schema change compares the same values**: there is a re-numbering
+`f` of the ordinals such that the new editor's primary key and unique indexes are the old ones
+re-numbered, and on the transformed rows `columnsMatch` / `hasNullForAnyCols` over the re-numbered
+columns answer exactly what they answered on the old rows over the old columns. -/
+theorem ddl_unique_check_same_values (ns : NSchema) (d : Ddl) (hwf : ns.wf = true) (hok : ddlOk ns d = true) :
+    ∃ f : Nat → Nat,
+      indexColsForTableEditor (ddlSchema ns d) = (indexColsForTableEditor ns).map (fun u => (u.1.map f, u.2))
+      ∧ (ddlSchema ns d).pk = ns.pk.map f
+      ∧ ∀ r1 r2 : Row, r1.length = ns.names.length → r2.length = ns.names.length →
+          (columnsMatch (ns.pk.map f) [] (ddlRow d r1) (ddlRow d r2) = columnsMatch ns.pk [] r1 r2)
+          ∧ ∀ u ∈ indexColsForTableEditor ns,
+              columnsMatch (u.1.map f) u.2 (ddlRow d r1) (ddlRow d r2) = columnsMatch u.1 u.2 r1 r2
+              ∧ hasNullForAnyCols (ddlRow d r1) (u.1.map f) = hasNullForAnyCols r1 u.1 := by
+  obtain ⟨f, K, m⟩ := ddl_remap ns d hwf hok
+  refine ⟨f, m.uq, m.pk, fun r1 r2 h1 h2 => ⟨columnsMatch_remap m ns.pk [] m.kpk r1 r2 h1 h2, fun u hu => ?_⟩⟩
+  exact ⟨columnsMatch_remap m u.1 u.2 (m.kuq u hu) r1 r2 h1 h2, hasNull_remap m u.1 (m.kuq u hu) r1 h1⟩
+
+/-- … so two rows collide on a key after the change iff they collided before it (Spec equality:
+collations, character prefixes, NULL never equal) … -/
+theorem ddl_conflict_same (ns : NSchema) (d : Ddl) (hwf : ns.wf = true) (hok : ddlOk ns d = true)
+    (r1 r2 : Row) (h1 : r1.length = ns.names.length) (h2 : r2.length = ns.names.length) :
+    specConflict (ddlSchema ns d).resolve (ddlRow d r1) (ddlRow d r2) = specConflict ns.resolve r1 r2 := by
+  obtain ⟨f, K, m⟩ := ddl_remap ns d hwf hok
+  exact specConflict_remap m r1 r2 h1 h2
+
+/-- **… and a schema change preserves the state invariant** (`specNoDup`, the predicate the driver
+and the harness evaluate): a duplicate-free table stays duplicate-free, w.r.t. the editor created
+after the change. -/
+theorem ddl_preserves_unique (ns : NSchema) (d : Ddl) (hwf : ns.wf = true) (hok : ddlOk ns d = true)
+    (t : List Row) (ht : ∀ r ∈ t, r.length = ns.names.length) :
+    specNoDup (ddlSchema ns d).resolve (t.map (ddlRow d)) = specNoDup ns.resolve t := by
+  obtain ⟨f, K, m⟩ := ddl_remap ns d hwf hok
+  exact specNoDup_remap m t ht
+
+/-- **The uniqueness invariant over histories that interleave statements with schema changes**:
+for every well-formed table definition, every table satisfying the invariant and every history of
+DML statements (arbitrary editor calls) and schema changes (ADD COLUMN at any position, DROP COLUMN
+of a non-key column, RENAME COLUMN, RENAME TABLE), under the guards of `unique_invariant_partial` for
+the statements, the stored rows keep distinct key values and never agree on a unique index — with
+respect to the editor created from the definition as it is at the end (index columns resolved by
+name), and the definition stays well-formed. -/
+theorem unique_invariant_ddl_partial (ns : NSchema) (hwf : ns.wf = true) (t : List Row)
+    (h : UniqInv ns.resolve t) (items : List HItem) (hg : MixedGuard ns t items) :
+    UniqInv (runMixed ns t items).1.resolve (runMixed ns t items).2 ∧ (runMixed ns t items).1.wf = true := by
+  induction items generalizing ns t with
+  | nil => exact ⟨h, hwf⟩
+  | cons it rest ih =>
+    cases it with
+    | dml cs =>
+      obtain ⟨hk, hci, hty, hex, hrest⟩ := hg
+      have g1 : KeyInjOn ns.resolve.pk (cs.flatMap EdCall.rows) :=
+        keyInjOn_typed ns.resolve _ (fun r hr => by
+          obtain ⟨c, hc, hrc⟩ := List.mem_flatMap.mp hr
+          exact hty c hc r hrc)
+      exact ih ns hwf _ (runStmtCalls_inv ns.resolve hk hci t h cs g1 hex) hrest
+    | ddl d =>
+      obtain ⟨hok, hlen, hrest⟩ := hg
+      obtain ⟨f, K, m⟩ := ddl_remap ns d hwf hok
+      exact ih (ddlSchema ns d) (ddl_wf ns d hwf hok) _ (uniqInv_remap m t hlen h) hrest
+
+/-- non-vacuity: `t(c0 PRIMARY KEY, c1 UNIQUE)`; ADD COLUMN c2 FIRST, DROP COLUMN (of a third
+column), RENAME COLUMN c1 TO c5 are applicable to well-formed definitions, and the editor created
+afterwards guards ordinal 2 / 1 / 1 — the column the index names, not the ordinal it had. -/
+def exNs : NSchema := { names := [0, 1], cols := [{}, {}], pk := [0], idx := [([1], [0])] }
+def exNs3 : NSchema := { names := [0, 7, 1], cols := [{}, {}, {}], pk := [0], idx := [([1], [0])] }
+
+example : exNs.wf = true ∧ ddlOk exNs (.addCol 0 2 {}) = true ∧ ddlOk exNs (.renCol 1 5) = true
+    ∧ exNs3.wf = true ∧ ddlOk exNs3 (.dropCol 1) = true
+    ∧ indexColsForTableEditor exNs = [([1], [0])]
+    ∧ indexColsForTableEditor (ddlSchema exNs (.addCol 0 2 {})) = [([2], [0])]
+    ∧ (ddlSchema exNs (.addCol 0 2 {})).pk = [1]
+    ∧ indexColsForTableEditor exNs3 = [([2], [0])]
+    ∧ indexColsForTableEditor (ddlSchema exNs3 (.dropCol 1)) = [([1], [0])]
+    ∧ (ddlSchema exNs (.renCol 1 5)).idx = [([5], [0])]
+    ∧ indexColsForTableEditor (ddlSchema exNs (.renCol 1 5)) = [([1], [0])] := by decide
+
+/-- … and after ADD COLUMN c2 FIRST the row (2,10) is still rejected next to (1,10): the statement
+`INSERT INTO t VALUES (NULL,2,10)` on the table `[(NULL,1,10)]` is a duplicate for the Impl model
+and for the Spec, while an editor working with the ordinal the index had at creation (1, now the
+primary-key column) accepts it — the shape of defect this part of the check is after. -/
+example :
+    (implStmt (ddlSchema exNs (.addCol 0 2 {})).resolve ([[.int 1, .int 10]].map (ddlRow (.addCol 0 2 {})))
+        (.insert false [[.null, .int 2, .int 10]])).1 = .dup
+    ∧ (specStmt (ddlSchema exNs (.addCol 0 2 {})).resolve ([[.int 1, .int 10]].map (ddlRow (.addCol 0 2 {})))
+        (.insert false [[.null, .int 2, .int 10]])).1 = .dup
+    ∧ (implStmt { (ddlSchema exNs (.addCol 0 2 {})).resolve with uniques := indexColsForTableEditor exNs }
+        [[.null, .int 1, .int 10]] (.insert false [[.null, .int 2, .int 10]])).1 = .ok 1 0 := by decide
+
+/-- non-vacuity: insert (1,10),(2,11); ADD COLUMN c2 FIRST; insert (NULL,3,12); RENAME TABLE; delete
+(NULL,2,11), insert (NULL,4,11) — every guard holds and three rows are stored. -/
+def exMixed : List HItem :=
+  [.dml [.ins [.int 1, .int 10], .ins [.int 2, .int 11]], .ddl (.addCol 0 2 {}),
+   .dml [.ins [.null, .int 3, .int 12]], .ddl .renTab,
+   .dml [.del [.null, .int 2, .int 11], .ins [.null, .int 4, .int 11]]]
+
+example : (runMixed exNs [] exMixed).2
+    = [[.null, .int 1, .int 10], [.null, .int 3, .int 12], [.null, .int 4, .int 11]] := by decide
+
 /-! ### the repaired finding, and the findings that remain on the unchanged tree -/
 
 def schComposite : Schema := { cols := [{}, {}, {}], pk := [0, 1], uniques := [] }
@@ -413,5 +602,14 @@ theorem finding_prefix_bytes_vs_chars :
       ∧ (specStmt sch t s).1 = .ok 1 0 :=
   ⟨{ cols := [{}, { str := true }], pk := [0], uniques := [([1], [1])] },
     [[.int 1, .str [195, 169]]], .insert false [[.int 2, .str [195, 168]]], by decide, by decide, by decide⟩
+
+/-- … the same defect seen by a table rewrite (ALTER TABLE … DROP COLUMN re-inserts every stored row
+through an editor): a table that satisfies the Spec invariant ('éa' and 'èa' under UNIQUE (c1(1)),
+stored through the pending-edits defect) is rejected with a duplicate-key error (`implDup`). -/
+theorem finding_prefix_bytes_vs_chars_rewrite :
+    ∃ sch t, regionPrefixMultibyte sch t (.delete [] [] none) = true ∧ specNoDup sch t = true
+      ∧ implDup sch t = true :=
+  ⟨{ cols := [{}, { str := true }], pk := [0], uniques := [([1], [1])] },
+    [[.int 1, .str [195, 169, 97]], [.int 2, .str [195, 168, 97]]], by decide, by decide, by decide⟩
 
 end Gms.C14
